@@ -76,3 +76,11 @@ ENTRIES += [
     N('exit-abort-type-is-not-none', "        if exc_val and not isinstance(exc_val, StopIteration):", "        if exc_type is not None and not issubclass(exc_type, StopIteration):", A),
     N('exit-abort-baseexception', "        if exc_val and not isinstance(exc_val, StopIteration):", "        if isinstance(exc_val, BaseException) and not isinstance(exc_val, StopIteration):", A),
 ]
+
+PX = 'wpull/proxy/client.py'
+ENTRIES += [
+    B('proxy-map-key-swapped', "            ssl_connection = connection.wrapped_connection\n            self._connection_map[ssl_connection] = connection\n", "            ssl_connection = connection.wrapped_connection\n            self._connection_map[connection] = ssl_connection\n", 'C12-D7', PX),
+    {'id': 'C16/proxy-pooled-under-proxy-address', 'prop': 'C16', 'kind': 'break', 'expect': 'C16-D2', 'edits': [(PX,
+      "        host_key = host_key or (host, port, use_ssl)\n        proxy_host, proxy_port = self._proxy_address\n", "        proxy_host, proxy_port = self._proxy_address\n        host_key = host_key or (proxy_host, proxy_port, use_ssl)\n")]},
+    N('proxy-host-key-after-address', "        host_key = host_key or (host, port, use_ssl)\n        proxy_host, proxy_port = self._proxy_address\n", "        proxy_host, proxy_port = self._proxy_address\n        host_key = host_key or (host, port, use_ssl)\n", PX),
+]
